@@ -142,6 +142,39 @@ def fam_huge(rng: random.Random):
     return W, H, items
 
 
+def fam_full_huge(rng: random.Random):
+    """Bins of more than 2^31 area units that are (almost) completely filled by a few slabs, plus small items:
+    the per-bin sums of item areas leave the 32-bit range.  Returns (W, H, items, [(rows, bins), ...])."""
+    W, H = rng.randint(46_400, 120_000), rng.randint(46_400, 120_000)
+    k = rng.randint(2, 4)
+    cuts = sorted(rng.sample(range(1, H), k - 1))
+    hs = [b - a for a, b in zip([0] + cuts, cuts + [H])]
+    if rng.random() < 0.4:
+        hs[-1] -= rng.randint(0, min(50, hs[-1] - 1))      # almost full
+    slabs = {}
+    for h in hs:
+        slabs[h] = slabs.get(h, 0) + 1
+    small_it = [rng.randint(1, 40), rng.randint(1, 40)]
+    items = sorted([[W, h, c] for h, c in slabs.items()] + [small_it + [rng.randint(2, 3)]])
+    ids = {(it[0], it[1]): i + 1 for i, it in enumerate(items)}
+    packs = []
+    for variant in range(2):
+        rows, y0 = [], 0
+        for h in hs:
+            rows.append([ids[(W, h)], 1, 0, y0, W, y0 + h])
+            y0 += h
+        n_small = next(it[2] for it in items if it[:2] == small_it)
+        nb = 1
+        for q in range(n_small):
+            b = 2 if variant == 0 else 2 + q          # all small items in bin 2 / each in a bin of its own
+            nb = max(nb, b)
+            x0 = q * 41 if variant == 0 else 0
+            rows.append([ids[tuple(small_it)], b, x0, 0, x0 + small_it[0], small_it[1]])
+        rng.shuffle(rows)
+        packs.append((rows, nb))
+    return W, H, items, packs
+
+
 def fam_tight(rng: random.Random):
     """k-1 perfectly filled bins (a guillotine dissection) plus one 1x1 item, listed FIRST: the lower bound on
     the bins is k and the packing below attains the declared lower bounds of the area objectives exactly.
@@ -180,11 +213,14 @@ def run(prop: str, tier: str, seed: int) -> int:
     import re
     import shutil as _sh
     import subprocess
-    pdir = core.ROOT / "proofs"
-    _sh.rmtree(pdir / ".tlacache", ignore_errors=True)
-    pr = subprocess.run(["tlapm", "--toolbox", "0", "0", "Dominance.tla"], cwd=str(pdir), capture_output=True,
-                        text=True, timeout=900)
-    _sh.rmtree(pdir / ".tlacache", ignore_errors=True)
+    # proved on a private copy: tlapm keeps its cache next to the module, and two runs must not share it
+    pdir = tlc.work_dir("tlaps")
+    _sh.copy(core.ROOT / "proofs" / "Dominance.tla", pdir / "Dominance.tla")
+    try:
+        pr = subprocess.run(["tlapm", "--toolbox", "0", "0", "Dominance.tla"], cwd=str(pdir), capture_output=True,
+                            text=True, timeout=900)
+    finally:
+        _sh.rmtree(pdir, ignore_errors=True)
     m = re.search(r"All (\d+) obligations? proved", pr.stdout + pr.stderr)
     if not m:
         raise core.MachineryError("TLAPS did not prove proofs/Dominance.tla: " + (pr.stdout + pr.stderr)[-800:])
@@ -270,9 +306,13 @@ def run(prop: str, tier: str, seed: int) -> int:
             elif u < 0.74:
                 inst = bp.make_instance(*bp.fam_storage_edge(rng))
                 fam = "storage-edge"
-            elif u < 0.80:
+            elif u < 0.77:
                 inst = bp.make_instance(*fam_huge(rng))
                 fam = "huge-area"
+            elif u < 0.80:
+                W, H, its, fpacks = fam_full_huge(rng)
+                inst = bp.make_instance(W, H, its)
+                fam = "full-huge-bins"
             elif u < 0.92:
                 W, H, its, trows, tk = fam_tight(rng)
                 inst = bp.make_instance(W, H, its)
@@ -286,8 +326,12 @@ def run(prop: str, tier: str, seed: int) -> int:
         packs = []
         if fam == "tight-lower-bound":
             packs.append((trows, tk))
+        if fam == "full-huge-bins":
+            packs.extend(fpacks)
         for _ in range(rng.randint(3, 5)):
             v = rng.random()
+            if fam == "full-huge-bins":
+                break          # (only the constructed packings: rejection sampling cannot place the slabs)
             if v < 0.35 and fam != "huge-area":
                 st = bp.decode_fresh(inst, rng.choice([1, 2]), bp.random_perm(inst, rng))
                 rows, nb = st["rows"], st["nb"]
